@@ -1,1 +1,449 @@
 import Liquid.TrimWriter
+import Liquid.TrimGeneric
+import Proofs.TwLemmas
+import Proofs.TwBridge
+/-!
+# C13 — whitespace-control hyphens strip exactly the adjacent literal whitespace
+
+Level of this file: **operation lists of the trim writer** (`render/trimwriter.go`). A template
+with hyphens issues the operation list of the same template without hyphens plus `TrimLeft` /
+`TrimRight` operations (`eraseTrims` removes them again).
+
+* Part A: the laws on a generic alphabet with a whitespace predicate, for EVERY operation list.
+* Part B: the bridge to the byte-level model `TW.step` (which the `tw` stream compares with the
+  real `trimWriter` call by call): for writes that are valid UTF-8 the byte machine is the image of
+  the generic machine under `encodeRunes`; byte-level corollaries; the counterexample that shows
+  the validity hypothesis cannot be dropped.
+* Part C: facts about the underlying write calls (used by C20).
+
+Helper lemmas: `Proofs/TwLemmas.lean` (generic machine), `Proofs/TwBridge.lean` (UTF-8 bridge),
+`Proofs/Utf8Lemmas.lean` (codec).
+-/
+
+open Gen
+
+/-! ## Part A — generic alphabet -/
+
+section generic
+variable {α : Type} (sp : α → Bool)
+
+/-- hyphens never remove anything but whitespace: the output with the trim operations is obtained
+    from the output without them by deleting whitespace characters only -/
+theorem trim_subseq (ops : List (GOp α)) : WsDeletion sp (out sp (eraseTrims ops)) (out sp ops) := by
+  rw [out_eraseTrims]; exact out_wsDeletion sp ops
+
+/-- deleting every whitespace character from the outputs with and without the trim operations
+    gives the same string -/
+theorem trim_only_ws (ops : List (GOp α)) : stripWS sp (out sp ops) = stripWS sp (out sp (eraseTrims ops)) :=
+  ((trim_subseq sp ops).stripWS_eq sp).symm
+
+/-- the trimmed output is a subsequence of the untrimmed one (in particular never longer) -/
+theorem trim_sublist (ops : List (GOp α)) : (out sp ops).Sublist (out sp (eraseTrims ops)) :=
+  (trim_subseq sp ops).sublist sp
+
+/-- an operation list without trim operations outputs the concatenation of its writes -/
+theorem erased_output_is_concat (ops : List (GOp α)) : out sp (eraseTrims ops) = writes ops :=
+  out_eraseTrims sp ops
+
+/-- a template without hyphens loses nothing -/
+theorem no_trim_identity (ops : List (GOp α)) (h : eraseTrims ops = ops) : out sp ops = writes ops := by
+  rw [← h, out_eraseTrims, h]
+
+/-- a `TrimLeft` directly after the write of a text with ink acts as the write of the
+    right-stripped text — wherever it stands -/
+theorem trimLeft_adjacent (pre post : List (GOp α)) (u : List α) (hu : hasInk sp u = true) :
+    out sp (pre ++ .write u :: .trimLeft :: post) = out sp (pre ++ .write (rstrip sp u) :: post) := by
+  rw [out_append, out_append, outFrom_write_trimLeft sp _ u post (.inl hu)]
+
+/-- the same for any text (whitespace-only or empty included: it is deleted entirely) when no
+    `TrimRight` is pending -/
+theorem trimLeft_adjacent_noflag (pre post : List (GOp α)) (u : List α) (hf : flagAfter sp pre = false) :
+    out sp (pre ++ .write u :: .trimLeft :: post) = out sp (pre ++ .write (rstrip sp u) :: post) := by
+  rw [out_append, out_append, outFrom_write_trimLeft sp _ u post (.inr hf)]
+
+/-- whitespace-only (or empty) text between a pending `TrimRight` and a `TrimLeft` is deleted
+    entirely and the `TrimLeft` reaches the text before it: exactly `TrimLeft` followed by an empty
+    write (which clears the flag) -/
+theorem trimLeft_adjacent_ws (pre post : List (GOp α)) (u : List α) (hu : hasInk sp u = false)
+    (hf : flagAfter sp pre = true) :
+    out sp (pre ++ .write u :: .trimLeft :: post) = out sp (pre ++ .trimLeft :: .write [] :: post) := by
+  rw [out_append, out_append, outFrom_write_trimLeft_ws sp _ u post hu hf]
+
+/-- a `TrimRight` directly before the write of a text with ink acts as the write of the
+    left-stripped text -/
+theorem trimRight_adjacent (pre post : List (GOp α)) (u : List α) (hu : hasInk sp u = true) :
+    out sp (pre ++ .trimRight :: .write u :: post) = out sp (pre ++ .write (lstrip sp u) :: post) := by
+  rw [out_append, out_append, outFrom_trimRight_write sp _ u post (.inl hu)]
+
+/-- the same for any text when a `TrimRight` was already pending -/
+theorem trimRight_adjacent_flag (pre post : List (GOp α)) (u : List α) (hf : flagAfter sp pre = true) :
+    out sp (pre ++ .trimRight :: .write u :: post) = out sp (pre ++ .write (lstrip sp u) :: post) := by
+  rw [out_append, out_append, outFrom_trimRight_write sp _ u post (.inr hf)]
+
+/-- whitespace-only (or empty) text after a `TrimRight` is deleted entirely; what remains is an
+    empty write: it clears the flag and leaves the earlier text buffered (a later `TrimLeft` still
+    reaches it), which is NOT the same as `write (lstrip u)` when no flag was pending -/
+theorem trimRight_adjacent_ws (pre post : List (GOp α)) (u : List α) (hu : hasInk sp u = false) :
+    out sp (pre ++ .trimRight :: .write u :: post) = out sp (pre ++ .trimRight :: .write [] :: post) := by
+  rw [out_append, out_append, outFrom_trimRight_write_ws sp _ u post hu]
+
+/-- an EMPTY write consumes the trim flag: `TrimRight` followed by an empty write is a no-op -/
+theorem trimRight_empty_write (pre post : List (GOp α)) (hf : flagAfter sp pre = false) :
+    out sp (pre ++ .trimRight :: .write [] :: post) = out sp (pre ++ post) := by
+  rw [out_append, out_append, outFrom_trimRight_empty_write sp _ post hf]
+
+/-- a `TrimRight` persists across a `TrimLeft` (`{{ a -}}{{- b }} text`: the text is still stripped) -/
+theorem trimRight_persists_trimLeft (pre post : List (GOp α)) :
+    out sp (pre ++ .trimRight :: .trimLeft :: post) = out sp (pre ++ .trimLeft :: .trimRight :: post) := by
+  rw [out_append, out_append, outFrom_trimRight_trimLeft]
+
+/-- ... and across a `Flush` -/
+theorem trimRight_persists_flush (pre post : List (GOp α)) :
+    out sp (pre ++ .trimRight :: .flush :: post) = out sp (pre ++ .flush :: .trimRight :: post) := by
+  rw [out_append, out_append, outFrom_trimRight_flush]
+
+end generic
+
+/-! ### non-vacuity (alphabet `Nat`, whitespace = `0`) -/
+
+section examples_generic
+private def sp0 : Nat → Bool := fun c => c == 0
+
+-- `x ␠ {{- … -}} ␠ y ␠ {{- … }} z`
+private def opsA : List (GOp Nat) :=
+  [.write [1, 0], .trimLeft, .trimRight, .write [0, 2, 0], .trimLeft, .write [3]]
+
+example : out sp0 opsA = [1, 2, 3] := by decide
+example : out sp0 (eraseTrims opsA) = [1, 0, 0, 2, 0, 3] := by decide
+example : stripWS sp0 (out sp0 opsA) = [1, 2, 3] ∧ stripWS sp0 (out sp0 (eraseTrims opsA)) = [1, 2, 3] := by decide
+example : WsDeletion sp0 (out sp0 (eraseTrims opsA)) (out sp0 opsA) := trim_subseq sp0 opsA
+example : out sp0 opsA ≠ out sp0 (eraseTrims opsA) := by decide
+-- no_trim_identity: hypothesis holds on a list with writes and a flush, whitespace is kept
+example : eraseTrims [GOp.write [0, 1, 0], .flush, .write [0], .write [2]] = [.write [0, 1, 0], .flush, .write [0], .write [2]]
+    ∧ out sp0 [GOp.write [0, 1, 0], .flush, .write [0], .write [2]] = [0, 1, 0, 0, 2] := by decide
+-- trimLeft_adjacent: `hasInk`, also with a pending TrimRight in front
+example : hasInk sp0 [0, 1, 0] = true ∧
+    out sp0 ([GOp.write [7, 0], .trimRight] ++ .write [0, 1, 0] :: .trimLeft :: [.write [2]]) = [7, 0, 1, 2] ∧
+    rstrip sp0 [0, 1, 0] = [0, 1] := by decide
+-- trimLeft_adjacent_noflag with whitespace-only text: the text disappears, the earlier text keeps its blank
+example : flagAfter sp0 [GOp.write [7, 0]] = false ∧
+    out sp0 ([GOp.write [7, 0]] ++ .write [0, 0] :: .trimLeft :: [.write [2]]) = [7, 0, 2] := by decide
+-- trimLeft_adjacent_ws: with a pending TrimRight the TrimLeft reaches the earlier text
+example : flagAfter sp0 [GOp.write [7, 0], .trimRight] = true ∧ hasInk sp0 [0, 0] = false ∧
+    out sp0 ([GOp.write [7, 0], .trimRight] ++ .write [0, 0] :: .trimLeft :: [.write [2]]) = [7, 2] := by decide
+-- trimRight_adjacent
+example : hasInk sp0 [0, 1, 0] = true ∧
+    out sp0 ([GOp.write [7, 0]] ++ .trimRight :: .write [0, 1, 0] :: [.write [2]]) = [7, 0, 1, 0, 2] ∧
+    lstrip sp0 [0, 1, 0] = [1, 0] := by decide
+-- trimRight_adjacent_flag
+example : flagAfter sp0 [GOp.write [7], .trimRight, .trimLeft] = true := by decide
+-- trimRight_adjacent_ws differs from `write (lstrip u)` when a TrimLeft follows
+example : hasInk sp0 [0, 0] = false ∧
+    out sp0 ([GOp.write [7, 0]] ++ .trimRight :: .write [0, 0] :: [.trimLeft, .write [2]]) = [7, 2] ∧
+    out sp0 ([GOp.write [7, 0]] ++ .write (lstrip sp0 [0, 0]) :: [.trimLeft, .write [2]]) = [7, 0, 2] := by decide
+-- trimRight_empty_write: the empty write consumed the flag, `[0, 2]` keeps its blank
+example : flagAfter sp0 [GOp.write [7]] = false ∧
+    out sp0 ([GOp.write [7]] ++ .trimRight :: .write [] :: [.write [0, 2]]) = [7, 0, 2] := by decide
+-- trimRight_persists_trimLeft
+example : out sp0 ([GOp.write [7, 0]] ++ .trimRight :: .trimLeft :: [.write [0, 2]]) = [7, 2] := by decide
+example : out sp0 ([GOp.write [7, 0]] ++ .trimRight :: .flush :: [.write [0, 2]]) = [7, 0, 2] := by decide
+end examples_generic
+
+/-! ## Part B — the bridge to the byte-level model -/
+
+/-- decoding the encoding of scalar values gives them back -/
+theorem tw_decode_encode (rs : List Rune) (h : ∀ r ∈ rs, ValidScalar r) : decodeRunes (encodeRunes rs) = rs :=
+  decode_encode rs h
+
+/-- `bytes.TrimLeftFunc(·, unicode.IsSpace)` on valid UTF-8 drops the leading whitespace runes -/
+theorem tw_trimLeftSpace_encode (rs : List Rune) (h : ∀ r ∈ rs, ValidScalar r) :
+    trimLeftSpace (encodeRunes rs) = encodeRunes (rs.dropWhile isSpaceRune) :=
+  trimLeftSpace_encode rs h
+
+/-- `bytes.TrimRightFunc(·, unicode.IsSpace)` on valid UTF-8 drops the trailing whitespace runes -/
+theorem tw_trimRightSpace_encode (rs : List Rune) (h : ∀ r ∈ rs, ValidScalar r) :
+    trimRightSpace (encodeRunes rs) = encodeRunes ((rs.reverse.dropWhile isSpaceRune).reverse) :=
+  trimRightSpace_encode rs h
+
+/-- one step of the byte machine on an encoded state and operation is the encoding of one step of
+    the generic machine, underlying write calls included -/
+theorem tw_step_encode (t : GTW Rune) (ht : ∀ r ∈ t.buf, ValidScalar r) (op : GOp Rune) (hop : ScalarOp op) :
+    TW.step (encTW t) (encOp op) =
+      (encTW (t.step isSpaceRune op).1, (t.step isSpaceRune op).2.map encodeRunes) :=
+  (step_enc t ht op hop).1
+
+/-- the bridge: the bytes written for an operation list with valid UTF-8 writes are the encoding
+    of the generic machine's output (alphabet = runes, whitespace = `unicode.IsSpace`) -/
+theorem tw_runOps_encode (ops : List (GOp Rune)) (h : ∀ op ∈ ops, ScalarOp op) :
+    runOps (ops.map encOp) = encodeRunes (out isSpaceRune ops) :=
+  runOps_enc ops h
+
+/-- every byte-level operation list with valid UTF-8 writes is such an image -/
+theorem tw_valid_is_encoded (ops : List WOp) (h : ValidOps ops) :
+    ∃ g : List (GOp Rune), g.map encOp = ops ∧ ∀ op ∈ g, ScalarOp op :=
+  validOps_lift ops h
+
+/-- byte level, valid UTF-8: trimming deletes whitespace runes only -/
+theorem tw_trim_subseq (ops : List WOp) (h : ValidOps ops) :
+    WsDeletion isSpaceRune (decodeRunes (runOps (eraseTrims ops))) (decodeRunes (runOps ops)) := by
+  obtain ⟨g, rfl, hs⟩ := validOps_lift ops h
+  rw [eraseTrims_map_encOp, decodeRunes_runOps g hs, decodeRunes_runOps _ (scalar_eraseTrims g hs)]
+  exact trim_subseq isSpaceRune g
+
+/-- byte level, valid UTF-8: deleting every whitespace rune from the outputs with and without the
+    trim operations gives the same bytes -/
+theorem tw_trim_only_ws (ops : List WOp) (h : ValidOps ops) :
+    stripSpaceBytes (runOps ops) = stripSpaceBytes (runOps (eraseTrims ops)) := by
+  obtain ⟨g, rfl, hs⟩ := validOps_lift ops h
+  unfold stripSpaceBytes
+  rw [eraseTrims_map_encOp, decodeRunes_runOps g hs, decodeRunes_runOps _ (scalar_eraseTrims g hs)]
+  exact congrArg encodeRunes (trim_only_ws isSpaceRune g)
+
+/-- byte level, valid UTF-8: the output stays valid UTF-8 and is a subsequence of the untrimmed bytes -/
+theorem tw_trim_valid_sublist (ops : List WOp) (h : ValidOps ops) :
+    ValidUtf8 (runOps ops) ∧ (runOps ops).Sublist (runOps (eraseTrims ops)) := by
+  refine ⟨runOps_valid ops h, ?_⟩
+  obtain ⟨g, rfl, hs⟩ := validOps_lift ops h
+  rw [eraseTrims_map_encOp, runOps_enc g hs, runOps_enc _ (scalar_eraseTrims g hs)]
+  exact encodeRunes_sublist (trim_sublist isSpaceRune g)
+
+/-- byte level, ALL byte strings (valid UTF-8 or not): without trim operations the output is the
+    concatenation of the writes -/
+theorem tw_erased_output_is_concat (ops : List WOp) : runOps (eraseTrims ops) = wopWrites ops := by
+  have := tw_run_eraseTrims ops []
+  simpa [runOps] using this
+
+/-- byte level, ALL byte strings: a template without hyphens loses nothing -/
+theorem tw_no_trim_identity (ops : List WOp) (h : eraseTrims ops = ops) : runOps ops = wopWrites ops := by
+  rw [← h, tw_erased_output_is_concat, h]
+
+/-- byte level, valid UTF-8: a `TrimLeft` directly after the write of a text with ink acts as the
+    write of `bytes.TrimRightFunc(text, unicode.IsSpace)` -/
+theorem tw_trimLeft_adjacent (pre post : List WOp) (u : Bytes) (hpre : ValidOps pre) (hpost : ValidOps post)
+    (hv : ValidUtf8 u) (hu : hasInkBytes u = true) :
+    runOps (pre ++ .write u :: .trimLeft :: post) = runOps (pre ++ .write (trimRightSpace u) :: post) := by
+  have e := encodeRunes_decodeRunes_of_valid u hv
+  have hsc := decodeRunes_all_scalar u
+  have hsr : ∀ r ∈ rstrip isSpaceRune (decodeRunes u), ValidScalar r := fun r hr =>
+    hsc r (((wsDeletion_rstrip isSpaceRune _).sublist isSpaceRune).subset hr)
+  have := runOps_congr_middle pre post hpre hpost
+    [.write (decodeRunes u), .trimLeft] [.write (rstrip isSpaceRune (decodeRunes u))]
+    (by intro op hop; simp at hop; rcases hop with rfl | rfl; exact hsc; trivial)
+    (by intro op hop; simp at hop; subst hop; exact hsr)
+    (by intro gpre gpost _ _
+        have := trimLeft_adjacent isSpaceRune gpre gpost (decodeRunes u) hu
+        simpa using this)
+  simp only [List.map_cons, List.map_nil, encOp, e, ← trimRightSpace_encode _ hsc] at this
+  simpa using this
+
+/-- byte level, valid UTF-8: a `TrimRight` directly before the write of a text with ink acts as
+    the write of `bytes.TrimLeftFunc(text, unicode.IsSpace)` -/
+theorem tw_trimRight_adjacent (pre post : List WOp) (u : Bytes) (hpre : ValidOps pre) (hpost : ValidOps post)
+    (hv : ValidUtf8 u) (hu : hasInkBytes u = true) :
+    runOps (pre ++ .trimRight :: .write u :: post) = runOps (pre ++ .write (trimLeftSpace u) :: post) := by
+  have e := encodeRunes_decodeRunes_of_valid u hv
+  have hsc := decodeRunes_all_scalar u
+  have hsl : ∀ r ∈ lstrip isSpaceRune (decodeRunes u), ValidScalar r := scalar_dropWhile hsc _
+  have := runOps_congr_middle pre post hpre hpost
+    [.trimRight, .write (decodeRunes u)] [.write (lstrip isSpaceRune (decodeRunes u))]
+    (by intro op hop; simp at hop; rcases hop with rfl | rfl; trivial; exact hsc)
+    (by intro op hop; simp at hop; subst hop; exact hsl)
+    (by intro gpre gpost _ _
+        have := trimRight_adjacent isSpaceRune gpre gpost (decodeRunes u) hu
+        simpa using this)
+  simp only [List.map_cons, List.map_nil, encOp, e, lstrip, ← trimLeftSpace_encode _ hsc] at this
+  simpa using this
+
+/-- byte level, valid UTF-8: the same for any text (blank or empty included) when no `TrimRight` is pending -/
+theorem tw_trimLeft_adjacent_noflag (pre post : List WOp) (u : Bytes) (hpre : ValidOps pre) (hpost : ValidOps post)
+    (hv : ValidUtf8 u) (hf : twFlagAfter pre = false) :
+    runOps (pre ++ .write u :: .trimLeft :: post) = runOps (pre ++ .write (trimRightSpace u) :: post) := by
+  have e := encodeRunes_decodeRunes_of_valid u hv
+  have hsc := decodeRunes_all_scalar u
+  have hsr : ∀ r ∈ rstrip isSpaceRune (decodeRunes u), ValidScalar r := fun r hr =>
+    hsc r (((wsDeletion_rstrip isSpaceRune _).sublist isSpaceRune).subset hr)
+  have := runOps_congr_middle pre post hpre hpost
+    [.write (decodeRunes u), .trimLeft] [.write (rstrip isSpaceRune (decodeRunes u))]
+    (by intro op hop; simp at hop; rcases hop with rfl | rfl; exact hsc; trivial)
+    (by intro op hop; simp at hop; subst hop; exact hsr)
+    (by intro gpre gpost eg sg
+        have hf' : flagAfter isSpaceRune gpre = false := by rw [← flagAfter_enc gpre sg, eg]; exact hf
+        have := trimLeft_adjacent_noflag isSpaceRune gpre gpost (decodeRunes u) hf'
+        simpa using this)
+  simp only [List.map_cons, List.map_nil, encOp, e, ← trimRightSpace_encode _ hsc] at this
+  simpa using this
+
+/-- byte level, valid UTF-8: blank text between a pending `TrimRight` and a `TrimLeft` is deleted
+    and the `TrimLeft` reaches the text before it -/
+theorem tw_trimLeft_adjacent_ws (pre post : List WOp) (u : Bytes) (hpre : ValidOps pre) (hpost : ValidOps post)
+    (hv : ValidUtf8 u) (hu : hasInkBytes u = false) (hf : twFlagAfter pre = true) :
+    runOps (pre ++ .write u :: .trimLeft :: post) = runOps (pre ++ .trimLeft :: .write [] :: post) := by
+  have e := encodeRunes_decodeRunes_of_valid u hv
+  have hsc := decodeRunes_all_scalar u
+  have := runOps_congr_middle pre post hpre hpost
+    [.write (decodeRunes u), .trimLeft] [.trimLeft, .write []]
+    (by intro op hop; simp at hop; rcases hop with rfl | rfl; exact hsc; trivial)
+    (by intro op hop; simp at hop; rcases hop with rfl | rfl; trivial; intro r hr; cases hr)
+    (by intro gpre gpost eg sg
+        have hf' : flagAfter isSpaceRune gpre = true := by rw [← flagAfter_enc gpre sg, eg]; exact hf
+        have := trimLeft_adjacent_ws isSpaceRune gpre gpost (decodeRunes u) hu hf'
+        simpa using this)
+  simp only [List.map_cons, List.map_nil, encOp, e] at this
+  simpa [encodeRunes] using this
+
+/-- byte level, valid UTF-8: `TrimRight` before any text when a `TrimRight` was already pending -/
+theorem tw_trimRight_adjacent_flag (pre post : List WOp) (u : Bytes) (hpre : ValidOps pre) (hpost : ValidOps post)
+    (hv : ValidUtf8 u) (hf : twFlagAfter pre = true) :
+    runOps (pre ++ .trimRight :: .write u :: post) = runOps (pre ++ .write (trimLeftSpace u) :: post) := by
+  have e := encodeRunes_decodeRunes_of_valid u hv
+  have hsc := decodeRunes_all_scalar u
+  have hsl : ∀ r ∈ lstrip isSpaceRune (decodeRunes u), ValidScalar r := scalar_dropWhile hsc _
+  have := runOps_congr_middle pre post hpre hpost
+    [.trimRight, .write (decodeRunes u)] [.write (lstrip isSpaceRune (decodeRunes u))]
+    (by intro op hop; simp at hop; rcases hop with rfl | rfl; trivial; exact hsc)
+    (by intro op hop; simp at hop; subst hop; exact hsl)
+    (by intro gpre gpost eg sg
+        have hf' : flagAfter isSpaceRune gpre = true := by rw [← flagAfter_enc gpre sg, eg]; exact hf
+        have := trimRight_adjacent_flag isSpaceRune gpre gpost (decodeRunes u) hf'
+        simpa using this)
+  simp only [List.map_cons, List.map_nil, encOp, e, lstrip, ← trimLeftSpace_encode _ hsc] at this
+  simpa using this
+
+/-- byte level, valid UTF-8: blank text after a `TrimRight` is deleted; an empty write remains -/
+theorem tw_trimRight_adjacent_ws (pre post : List WOp) (u : Bytes) (hpre : ValidOps pre) (hpost : ValidOps post)
+    (hv : ValidUtf8 u) (hu : hasInkBytes u = false) :
+    runOps (pre ++ .trimRight :: .write u :: post) = runOps (pre ++ .trimRight :: .write [] :: post) := by
+  have e := encodeRunes_decodeRunes_of_valid u hv
+  have hsc := decodeRunes_all_scalar u
+  have := runOps_congr_middle pre post hpre hpost
+    [.trimRight, .write (decodeRunes u)] [.trimRight, .write []]
+    (by intro op hop; simp at hop; rcases hop with rfl | rfl; trivial; exact hsc)
+    (by intro op hop; simp at hop; rcases hop with rfl | rfl; trivial; intro r hr; cases hr)
+    (by intro gpre gpost _ _
+        have := trimRight_adjacent_ws isSpaceRune gpre gpost (decodeRunes u) hu
+        simpa using this)
+  simp only [List.map_cons, List.map_nil, encOp, e] at this
+  simpa [encodeRunes] using this
+
+/-- byte level, ALL byte strings: `TrimRight` followed by an empty write is a no-op when no flag
+    was pending (the empty write consumes the flag) -/
+theorem tw_trimRight_empty_write (pre post : List WOp) (hf : twFlagAfter pre = false) :
+    runOps (pre ++ .trimRight :: .write [] :: post) = runOps (pre ++ post) := by
+  unfold runOps
+  simp only [List.append_assoc, List.cons_append]
+  rw [tw_run_append, tw_run_append {} pre]
+  generalize hT : TW.run {} pre = T at hf ⊢
+  obtain ⟨⟨buf, trim⟩, calls⟩ := T
+  have : trim = false := by simpa [twFlagAfter, hT] using hf
+  subst this
+  simp [TW.run, TW.step, trimLeftSpace, trimLeftSpaceAux]
+
+/-- byte level, ALL byte strings: a `TrimRight` persists across `TrimLeft` and `Flush` -/
+theorem tw_trimRight_persists (pre post : List WOp) :
+    runOps (pre ++ .trimRight :: .trimLeft :: post) = runOps (pre ++ .trimLeft :: .trimRight :: post) ∧
+    runOps (pre ++ .trimRight :: .flush :: post) = runOps (pre ++ .flush :: .trimRight :: post) := by
+  unfold runOps
+  simp only [List.append_assoc, List.cons_append]
+  rw [tw_run_append, tw_run_append {} pre, tw_run_append {} pre, tw_run_append {} pre]
+  simp [TW.run, TW.step]
+
+/-- the operation list of the counterexample: `x 0xC2`, TrimRight, `␠ 0xA0 y` -/
+def twBadOps : List WOp := [.write [0x78, 0xC2], .trimRight, .write [0x20, 0xA0, 0x79]]
+
+/-- On INVALID UTF-8 the byte-level erasure law is false: stripping the ASCII space joins `0xC2`
+    and `0xA0` into U+00A0, a whitespace rune that neither write contained; with the trim the
+    stripped output is `xy`, without it `x U+FFFD U+FFFD y`. So `ValidOps` cannot be dropped from
+    `tw_trim_only_ws` / `tw_trim_subseq`. -/
+theorem tw_erasure_fails_on_invalid_utf8 :
+    runOps twBadOps = [0x78, 0xC2, 0xA0, 0x79] ∧
+    runOps (eraseTrims twBadOps) = [0x78, 0xC2, 0x20, 0xA0, 0x79] ∧
+    stripSpaceBytes (runOps twBadOps) = [0x78, 0x79] ∧
+    stripSpaceBytes (runOps (eraseTrims twBadOps)) = [0x78, 0xEF, 0xBF, 0xBD, 0xEF, 0xBF, 0xBD, 0x79] ∧
+    stripSpaceBytes (runOps twBadOps) ≠ stripSpaceBytes (runOps (eraseTrims twBadOps)) ∧
+    ¬ ValidOps twBadOps := by
+  refine ⟨by decide, by decide, by decide, by decide, by decide, ?_⟩
+  intro h
+  have hv := h [0x78, 0xC2] (by simp [twBadOps])
+  rw [← validUtf8B_iff] at hv
+  revert hv; decide
+
+/-! ### non-vacuity (bytes) -/
+
+section examples_bytes
+-- `é␠` TrimLeft TrimRight `␠U+00A0 x ␠` (NBSP = C2 A0 is whitespace for Go)
+private def opsB : List WOp :=
+  [.write [0xC3, 0xA9, 0x20], .trimLeft, .trimRight, .write [0x20, 0xC2, 0xA0, 0x78, 0x20]]
+
+private theorem opsB_valid : ValidOps opsB := by
+  intro b hb
+  rw [← validUtf8B_iff]
+  simp only [opsB, List.mem_cons, WOp.write.injEq, List.not_mem_nil, or_false, reduceCtorEq, false_or] at hb
+  rcases hb with rfl | rfl <;> decide
+
+example : runOps opsB = [0xC3, 0xA9, 0x78, 0x20] := by decide
+example : runOps (eraseTrims opsB) = [0xC3, 0xA9, 0x20, 0x20, 0xC2, 0xA0, 0x78, 0x20] := by decide
+example : stripSpaceBytes (runOps opsB) = [0xC3, 0xA9, 0x78] := by decide
+example : stripSpaceBytes (runOps opsB) = stripSpaceBytes (runOps (eraseTrims opsB)) := tw_trim_only_ws opsB opsB_valid
+example : WsDeletion isSpaceRune (decodeRunes (runOps (eraseTrims opsB))) (decodeRunes (runOps opsB)) :=
+  tw_trim_subseq opsB opsB_valid
+-- the bridge on a concrete rune-level list: U+00E9, space | TrimLeft | U+3000 (ideographic space), U+1F600
+example : runOps ([GOp.write [0xE9, 0x20], .trimLeft, .trimRight, .write [0x3000, 0x1F600]].map encOp)
+    = [0xC3, 0xA9, 0xF0, 0x9F, 0x98, 0x80] := by decide
+example : ScalarOp (GOp.write [0xE9, 0x20, 0x3000, 0x1F600]) := by
+  intro r hr; simp at hr; rcases hr with rfl | rfl | rfl | rfl <;> decide
+-- no_trim_identity holds for invalid bytes too
+example : eraseTrims [WOp.write [0xC2], .flush, .write [0x20, 0xA0]] = [WOp.write [0xC2], .flush, .write [0x20, 0xA0]]
+    ∧ runOps [WOp.write [0xC2], .flush, .write [0x20, 0xA0]] = [0xC2, 0x20, 0xA0] := by decide
+-- adjacency at byte level
+example : hasInkBytes [0x20, 0xC2, 0xA0, 0x78, 0x20] = true ∧
+    trimRightSpace [0x20, 0xC2, 0xA0, 0x78, 0x20] = [0x20, 0xC2, 0xA0, 0x78] ∧
+    trimLeftSpace [0x20, 0xC2, 0xA0, 0x78, 0x20] = [0x78, 0x20] := by decide
+-- blank text (space, NBSP) between a pending TrimRight and a TrimLeft: deleted, and the TrimLeft reaches `x␠`
+example : twFlagAfter [.write [0x78, 0x20], .trimRight] = true ∧ hasInkBytes [0x20, 0xC2, 0xA0] = false ∧
+    runOps ([.write [0x78, 0x20], .trimRight] ++ .write [0x20, 0xC2, 0xA0] :: .trimLeft :: [.write [0x79]])
+      = [0x78, 0x79] := by decide
+-- no pending flag: the blank text is deleted, `x␠` keeps its blank
+example : twFlagAfter [.write [0x78, 0x20]] = false ∧
+    runOps ([.write [0x78, 0x20]] ++ .write [0x20, 0xC2, 0xA0] :: .trimLeft :: [.write [0x79]])
+      = [0x78, 0x20, 0x79] := by decide
+-- the empty write consumed the flag: `␠y` keeps its blank; and a TrimRight survives a TrimLeft
+example : runOps ([.write [0x78]] ++ .trimRight :: .write [] :: [.write [0x20, 0x79]]) = [0x78, 0x20, 0x79] ∧
+    runOps ([.write [0x78, 0x20]] ++ .trimRight :: .trimLeft :: [.write [0x20, 0x79]]) = [0x78, 0x79] := by decide
+end examples_bytes
+
+/-! ## Part C — the underlying write calls (for C20) -/
+
+/-- the bytes written are the concatenation of the underlying write calls -/
+theorem writeCalls_flatten (ops : List WOp) : (writeCalls ops).flatten = runOps ops := rfl
+
+/-- every trim-writer operation issues at most one call of the underlying writer -/
+theorem tw_step_at_most_one_call (t : TW) (op : WOp) : (t.step op).2.length ≤ 1 :=
+  tw_step_calls_le_one t op
+
+/-- hence an operation list (with the final flush) issues at most one call per operation -/
+theorem writeCalls_length_le (ops : List WOp) : (writeCalls ops).length ≤ ops.length + 1 := by
+  have := tw_run_calls_le (ops ++ [.flush]) {}
+  simpa [writeCalls] using this
+
+/-- only `TrimLeft` can issue an empty write: the calls of `Write` and `Flush` are non-empty -/
+theorem tw_step_calls_nonempty (t : TW) (op : WOp) (h : op ≠ .trimLeft) : ∀ c ∈ (t.step op).2, c ≠ [] := by
+  cases op with
+  | trimLeft => exact absurd rfl h
+  | trimRight => simp [TW.step]
+  | write b =>
+    simp only [TW.step]
+    cases ht : t.trim <;> cases hb : t.buf <;> simp
+  | flush =>
+    simp only [TW.step]
+    cases hb : t.buf <;> simp
+
+/-- the calls of a whole run are the calls of its operations in order -/
+theorem writeCalls_append (xs ys : List WOp) :
+    (TW.run {} (xs ++ ys)).2 = (TW.run {} xs).2 ++ (TW.run (TW.run {} xs).1 ys).2 := by
+  rw [tw_run_append]
+
+section examples_calls
+example : writeCalls [.write [0x78, 0x20], .trimLeft, .write [0x79], .flush, .trimLeft]
+    = [[0x78], [0x79], []] := by decide
+example : (TW.step { buf := [0x78], trim := false } (.write [0x79])).2 = [[0x78]] := by decide
+end examples_calls
